@@ -184,7 +184,72 @@ def no_invocation_case(_=None):
   return 1, 1, viols, []
 
 
+class Box:
+  """Registered as a dict-based object: serialised through its __dict__, not a daglish node."""
+
+  def __init__(self, items=None, more=None):
+    self.items = items
+    self.more = more
+
+  def __eq__(self, other):
+    return type(other) is Box and self.__dict__ == other.__dict__
+
+  __hash__ = None
+
+
+def sharing_outside_daglish_case(_=None):
+  """An object referenced once through ordinary containers and again from inside a node that only
+  serialization knows about (attribute of a dict-based registered object): still one object after
+  the round trip."""
+  viols = []
+  def bad(what, name):
+    viols.append(dict(what=what, sig='sharing-outside-daglish', store=name, op='json', config=name, outside=True))
+  try:
+    ser.register_dict_based_object(Box)
+  except Exception:   # pylint: disable=broad-except
+    pass
+  def list_case():
+    shared = [1, 2, 3]
+    return fdl.Config(pool.fk, shared, box=Box(items=shared)), lambda c: (c.x, c.box.items)
+  def config_case():
+    sub = fdl.Config(pool.fb, 1, [2])
+    return fdl.Config(pool.fk, sub, box=Box(items=sub)), lambda c: (c.x, c.box.items)
+  def two_boxes_case():
+    shared = {'k': [1]}
+    return (fdl.Config(pool.fk, [shared], box=Box(items=shared), box2=Box(more=(shared,))),
+            lambda c: (c.x[0], c.box.items, c.box2.more[0]))
+  def only_in_boxes_case():
+    shared = [5]
+    return fdl.Config(pool.fk, 0, box=Box(items=shared, more=[shared])), lambda c: (c.box.items, c.box.more[0])
+  n = 0
+  for mk in (list_case, config_case, two_boxes_case, only_in_boxes_case):
+    n += 1
+    name = mk.__name__
+    cfg, refs = mk()
+    assert all(r is refs(cfg)[0] for r in refs(cfg))
+    try:
+      doc = ser.dump_json(cfg)
+    except Exception:   # pylint: disable=broad-except
+      continue                                    # loud failure is allowed
+    try:
+      back = ser.load_json(doc)
+    except Exception as e:   # pylint: disable=broad-except
+      bad(f'load_json raised {type(e).__name__}: {str(e)[:80]}', name)
+      continue
+    got = refs(back)
+    if not all(r is got[0] for r in got):
+      bad('an object referenced through a container argument and from an attribute of a dict-based registered '
+          'object was one object before dump_json/load_json and is several objects after', name)
+    if canon.canon(back.x) != canon.canon(cfg.x):
+      bad('argument x differs after the round trip', name)
+  return n, n, viols, [dict(scenario='sharing between daglish containers and serialization-only nodes', cases=n)]
+
+
 def replay(case):
+  if case.get('outside'):
+    r = sharing_outside_daglish_case()
+    m = [v for v in r[2] if v['store'] == case.get('store')]
+    return m[0]['what'] if m else None
   if case.get('noinv'):
     r = no_invocation_case()
   elif case.get('leaf'):
@@ -200,6 +265,7 @@ def run(tier='quick', seed=0, nproc=16):
   res = common.pmap(check_leaf, leaf_domain(tier), nproc)
   res += common.pmap(check_config, [n for n, _ in pool.make_pool()], nproc)
   res.append(common.guard(no_invocation_case))
+  res.append(common.guard(sharing_outside_daglish_case))
   return common.merge(
       res, 'layerb.prop_C09', keyfn=lambda v: ('bytes-escape' if v.get('kind') == 'bytes' else None),
       rule='leaf domain (ints around 2^53/2^63/10^30, special floats, escape-like str, every byte '
